@@ -930,7 +930,18 @@ def entry_points(dtype=np.float64, seed=0):
     simple("RandomizedCP_receiver_fit_transform", lambda est, X: est.fit_transform(X), lambda d: (RandomizedCP(R, 8, n_iter_max=2, init=(d.w, d.fs), random_state=sd, verbose=0), d.X), inplace=[0], skel=EK)
     simple("ConstrainedCP_receiver_fit_transform", lambda est, X: est.fit_transform(X), lambda d: (ConstrainedCP(R, n_iter_max=2, init=cpt(d), fixed_modes=[0, 2], l1_reg=[0.1, 0.2, 0.3]), d.X), inplace=[0], skel=EK)
     simple("Parafac2_receiver_fit_transform", lambda est, sl: est.fit_transform(sl), lambda d: (Parafac2(R, n_iter_max=3, init=p2t(d, d.w1), nn_modes=[0]), d.slices), inplace=[0], skel=EK)
-    simple("Tucker_NN_receiver_fit_transform", lambda est, X: est.fit_transform(X), lambda d: (Tucker_NN([2, 2, 2], n_iter_max=2, init=(d.core, d.tf)), d.X), inplace=[0], skel=EK)
+    def nck(normalize, sweeps=2):      # round 7: Tucker_NN with the order-generic non_negative_tucker body (Props C15_nn_tucker_class_fit_frame)
+        def nck_name(args):
+            N = args[1].ndim
+            return f"(KNnTuckerClassFit {N}%nat {sweeps}%nat {C.boolc(normalize)} {C.nat_list(range(N))})"
+        return (nck_name, [0, 1])
+    simple("Tucker_NN_receiver_fit_transform", lambda est, X: est.fit_transform(X), lambda d: (Tucker_NN([2, 2, 2], n_iter_max=2, init=(d.core, d.tf)), d.X), inplace=[0], skel=nck(False))
+    # round 7: exact=True of the HALS family through the estimator classes (heavy: one argument kind in the quick tier); also the only table
+    # configurations giving CP_NN_HALS(nn_modes=) / Tucker_NN_HALS(core_sparsity_coefficient=) a non-default value whatever the fuzz stream draws
+    simple("CP_NN_HALS_class_exact_nnmodes", lambda X, i, fm: CP_NN_HALS(R, n_iter_max=1, init=i, exact=True, nn_modes=[2], fixed_modes=fm).fit_transform(X), lambda d: (d.X, (d.w1, d.fs), [0, 1]))
+    simple("Tucker_NN_HALS_class_exact_core_sparsity", lambda X, i, fm: Tucker_NN_HALS([2, 2, 2], n_iter_max=1, init=i, exact=True, fixed_modes=fm, core_sparsity_coefficient=0.1).fit_transform(X),
+           lambda d: (d.X, (d.core, d.tf), [0, 1]))
+    simple("Tucker_NN_receiver_fit_transform_normalize_obj", lambda est, X: est.fit_transform(X), lambda d: (Tucker_NN([2, 2, 2], n_iter_max=2, init=TuckerTensor((d.core, d.tf)), normalize_factors=True, tol=0), d.X), inplace=[0], skel=nck(True))
     simple("Tucker_NN_HALS_receiver_fit_transform", lambda est, X: est.fit_transform(X), lambda d: (Tucker_NN_HALS([2, 2, 2], n_iter_max=2, init=(d.core, d.tf), sparsity_coefficients=[0.1, None, 0.1], fixed_modes=[2]), d.X), inplace=[0], skel=EK)
     simple("CPPower_receiver_fit", lambda est, X: est.fit(X), lambda d: (CPPower(R, n_repeat=2, n_iteration=2), d.X), inplace=[0], skel=EK)
     simple("SymmetricCP_receiver_fit", lambda est, X: est.fit(X), lambda d: (SymmetricCP(R, n_repeat=2, n_iteration=2), d.rs.rand(3, 3, 3).astype(dtype)), inplace=[0], skel=EK)
@@ -2328,7 +2339,7 @@ def static_cases(repo, cap=STATIC_CAP):
 # ============================================================================ running one configuration
 QUICK_VARIANTS = ["fresh", "transposed", "sliced", "readonly"]
 QUICK_COLUMN = ("prox_", "nn_tucker_init", "hals_nnls_warm", "active_set_warm", "fista_warm")     # configurations that also get the "column" kind in the quick tier
-HEAVY = {"nn_parafac_hals_init_exact_nnmodes"}      # > 1 s CPU per call (exact HALS: 50000 inner iterations): one kind in the quick tier
+HEAVY = {"nn_parafac_hals_init_exact_nnmodes", "CP_NN_HALS_class_exact_nnmodes", "Tucker_NN_HALS_class_exact_core_sparsity"}      # > 1 s CPU per call (exact HALS: 50000 inner iterations): one kind in the quick tier
 ALL_VARIANTS = ["fresh", "transposed", "sliced", "strided", "readonly", "column"]
 # "readonly": protected arrays have writeable=False and protected lists record mutator calls, so that a write of IDENTICAL
 # values (invisible to the byte snapshot) surfaces as an exception / a logged call: a write attempt through a protected
